@@ -495,6 +495,10 @@ func (m *Message) Answer(resultCode uint32) *Message {
 		m.Header.EndToEndID,
 		m.Dictionary(),
 	)
+	// NewMessage replaces zero identifiers by random ones; an answer must
+	// carry the identifiers of the request, zero included.
+	nm.Header.HopByHopID = m.Header.HopByHopID
+	nm.Header.EndToEndID = m.Header.EndToEndID
 	if resultCode != 0 {
 		nm.NewAVP(avp.ResultCode, avp.Mbit, 0, datatype.Unsigned32(resultCode))
 	}
